@@ -45,4 +45,9 @@ S47 C12 quick cellToLocalIj_r1$
 S48 C19 quick glue_faces$
 S49 C15 thorough cross_reject_sound_tri_g2$
 S50 C01 quick valid_allwords$
+S51 C03 quick valid_predicate_allwords$
+S52 C18 quick symscan
+S53 C16 quick normalize_3loops$
+S54 C20 quick small$
+S55 C13 quick err_9$
 T
